@@ -34,5 +34,13 @@ impl<'a> StateMachine<'a> {
     //@|         r.is_ok() && old(self).state is MergeConflict ==> mc_empty(&final(self).painter.merge_conflict_lines),  // @C01:at.the.end.of.the.input.an.open.conflict.region.has.been.painted
 }
 
+// ---------------------------------------------------------------- config.rs: the buffer limit is the number the user gave
+//@ type src/cli.rs Opt keep=line_buffer_size,max_line_length noderive
+//@ region src/config.rs Config@From::from
+//@sig pub fn config_line_buffer_size(opt: &cli::Opt) -> (r: usize)
+//@fromafter <<<line_buffer_size:>>>
+//@until <<<max_line_distance:>>>
+//@| ensures r == opt.line_buffer_size,  // @C11:the.configured.buffer.limit.is.the.option.value
+
 } // verus!
 fn main() {}
